@@ -55,6 +55,8 @@ CONFIGS = {
     'Fourati-MARG':       ('Fourati', 'MARG', None, True, 'left', 0.02, False),
     'ROLEQ-MARG-NED':     ('ROLEQ', 'MARG', 'NED', True, 'left', 1e-06, False),
     'ROLEQ-MARG-ENU':     ('ROLEQ', 'MARG', 'ENU', True, 'left', 0.002, False),
+    'ROLEQ-MARG-NED-w10': ('ROLEQ', 'MARG', 'NED', True, 'left', 0.02, False),        # weights=[1, 0]: the magnetometer is configured away
+    'ROLEQ-MARG-NED-w01': ('ROLEQ', 'MARG', 'NED', True, 'left', 0.02, False),        # weights=[0, 1]: the accelerometer is configured away
     'FKF-MARG':           ('FKF', 'MARG', None, False, 'left', 0.015, False),
     'Complementary-IMU':  ('Complementary', 'IMU', None, False, 'left', 0.001, False),
     'Complementary-MARG': ('Complementary', 'MARG', None, False, 'left', 0.002, False),
@@ -188,9 +190,10 @@ def build(name):
     elif filt == 'ROLEQ':
         probe = F.ROLEQ(magnetic_ref=DIP, frame=frame)
         s.g_ref, s.m_ref = np.array(probe.a_ref, float), np.array(probe.m_ref, float)
-        s.batch = lambda g, a, m, q0: only_q(F.ROLEQ(gyr=g, acc=a, mag=m, magnetic_ref=DIP, frame=frame, **kw0(q0)).Q)
+        wkw = {'weights': np.array([1.0, 0.0])} if name.endswith('-w10') else ({'weights': np.array([0.0, 1.0])} if name.endswith('-w01') else {})
+        s.batch = lambda g, a, m, q0: only_q(F.ROLEQ(gyr=g, acc=a, mag=m, magnetic_ref=DIP, frame=frame, **wkw, **kw0(q0)).Q)
         def new():
-            inst = F.ROLEQ(magnetic_ref=DIP, frame=frame)
+            inst = F.ROLEQ(magnetic_ref=DIP, frame=frame, **wkw)
             return lambda q, g, a, m: inst.update(q, g, a, m)
     elif filt == 'FKF':
         s.batch = lambda g, a, m, q0: only_q(F.FKF(gyr=g, acc=a, mag=m).Q)
